@@ -380,6 +380,8 @@ class Interp:
             base = e.func.value
             if e.func.attr in ("debug", "info", "warning", "error", "exception", "critical", "log"):
                 if isinstance(base, ast.Name) and (base.id in LOGGER_NAMES or base.id.endswith("_logger") or base.id.endswith("logger")):
+                    if f"{base.id}.{e.func.attr}" in self.S.handlers:
+                        return False  # the contract observes this logger call (handler keyed "<name>.<method>"): evaluate it
                     self.S.note("dropped logging calls (assumed not to raise and not to modify program state)")
                     return True
         return False
@@ -1044,7 +1046,7 @@ class Interp:
         out: list[Any] = []
         f = self.comp_frame(frame)
         self.comp_iter(e.generators, f, lambda fr: out.append(self.eval(e.elt, fr)))
-        return out
+        return self.models.EagerGen(out)
 
     def ex_SetComp(self, e: ast.SetComp, frame: Frame) -> Any:
         out: list[Any] = []
@@ -1060,9 +1062,7 @@ class Interp:
 
         def emit(fr: Frame) -> None:
             k = self.eval(e.key, fr)
-            if V.contains_sym(k):
-                raise Unsupported("dict comprehension with symbolic keys")
-            out[k] = self.eval(e.value, fr)
+            self.models.store_subscript(self, out, k, self.eval(e.value, fr))
 
         self.comp_iter(e.generators, f, emit)
         return out
